@@ -555,6 +555,8 @@ def _ifs_eval(run: Run, cp):
         ('_sumifs', [[1, 2], [3, 4]], [([[5, 1], [7, 9]], gt4)], 8, 'matrices', 'C12.R2'),
         ('_sumifs', [1, 2, 3], [([1, 2, 3], gt4)], 0, 'nothing accepted', 'C12.R2'),
         ('_sumifs', [10, 20], [([blank, 5], eq0)], 10, 'a blank criteria cell is looked at as 0', 'C12.R2'),
+        ('_sumifs', [10, 20, 30], [(['', blank, 0], eq0)], 50, 'an empty text in a criteria range is not 0', 'C12.R2'),
+        ('_countifs', [1, 2, 3], [(['', 0, blank], eq0)], 2, 'an empty text in a criteria range is not 0', 'C12.R2'),
         ('_sumifs', [0, 20, 30], [([5, 5, 1], gt4)], 20, 'a zero in the target', 'C12.R6'),
         ('_sumifs', [True, 2, 3], [([5, 5, 1], gt4)], 3, 'TRUE in the target adds 1', 'C12.R6'),
         ('_sumifs', [1, 2, 3, 4], [([5, 1, 7], gt4)], 'refused', 'criteria range shorter than the target', 'C12.R1'),
